@@ -846,3 +846,38 @@ Proof.
   - intros [A B]. apply String.eqb_neq in A. apply String.eqb_eq in B. split; assumption.
   - intros [A B]. split; [apply String.eqb_neq; assumption|apply String.eqb_eq; assumption].
 Qed.
+
+(* every construction path is a sequence of "write the key, recompute" steps: the stored key is
+   always the hashed key *)
+Lemma cl_set_public_key_consistent : forall decode Hash s k,
+  cl_consistent decode Hash s -> cl_consistent decode Hash (cl_set_public_key decode Hash s k).
+Proof.
+  intros decode Hash s k H. unfold cl_set_public_key. destruct (decode k) as [b|] eqn:D; [|exact H].
+  split; cbn; [exact D|reflexivity].
+Qed.
+
+Lemma cl_set_public_key_fresh : forall decode Hash s k b, decode k = Some b ->
+  cl_consistent decode Hash (cl_set_public_key decode Hash s k).
+Proof.
+  intros decode Hash s k b D. unfold cl_set_public_key. rewrite D. split; cbn; [exact D|reflexivity].
+Qed.
+
+Fixpoint cl_run decode Hash (s : cl_state) (ks : list string) : cl_state :=
+  match ks with [] => s | k :: tl => cl_run decode Hash (cl_set_public_key decode Hash s k) tl end.
+
+Lemma cl_run_consistent : forall decode Hash ks s,
+  cl_consistent decode Hash s -> cl_consistent decode Hash (cl_run decode Hash s ks).
+Proof.
+  intros decode Hash. induction ks as [|k tl IH]; intros s H; [exact H|].
+  cbn. apply IH. apply cl_set_public_key_consistent. exact H.
+Qed.
+
+(* the stale shape breaks it as soon as the normalised spelling decodes to other bytes whose hash
+   differs (MIRACL 129-byte form vs herumi 64-byte form) *)
+Lemma cl_stale_inconsistent : forall decode Hash norm s k b b',
+  decode k = Some b -> decode (norm k) = Some b' -> Hash b <> Hash b' ->
+  ~ cl_consistent decode Hash (cl_set_public_key_stale decode Hash norm s k).
+Proof.
+  intros decode Hash norm s k b b' D D' HN [A B]. unfold cl_set_public_key_stale in *.
+  rewrite D in *. cbn in *. rewrite D' in A. inversion A; subst. apply HN. reflexivity.
+Qed.
